@@ -629,6 +629,20 @@ class Evaluator:
             path = p["path"]
             if path.endswith("Option::None"):
                 return v[0] == "none"
+            if v[0] in ("int", "str", "bool"):
+                # a constant used as a pattern (`MAX => ..`): compared by value
+                cv = self.consts.get(path)
+                if isinstance(cv, bool):
+                    cv = ("bool", cv)
+                elif isinstance(cv, int):
+                    cv = ("int", cv)
+                elif isinstance(cv, str):
+                    cv = ("str", cv)
+                if not isinstance(cv, tuple):
+                    cv = self._const_value(path)
+                if cv is None:
+                    raise Unrecognised(f"constant pattern {path} of unknown value")
+                return cv == v
             return v[0] == "enum" and v[1] == path
         if k == "por":
             return any(self.bind(q, v, env) for q in p["pats"])
